@@ -57,6 +57,9 @@ SPELLINGS = (
     ('https_upper', 'HTTPS://sim.test/r/{F}', 'remote', 'remote'),
     ('ftp', 'ftp://sim.test/r/{F}', 'remote', 'remote'),
     ('custom_scheme', 'x-custom://sim.test/r/{F}', 'remote', 'remote'),
+    # remote-looking schemes WITHOUT an authority part
+    ('urn_noauth', 'urn:simr-{F}', 'remote', 'remote'),
+    ('stub_noauth', 'stub:r-{F}', 'remote', 'remote'),
 )
 SPELL = {s[0]: s for s in SPELLINGS}
 
@@ -199,10 +202,11 @@ class C12(Check):
             main = 'path'      # the instance document is the main source; the schema comes from its hints
         relbase = bool(self._relbase and main in ('path', 'text_base') and a == 'sandbox')
         nobase = bool(a == 'sandbox' and main in ('path', 'fileurl') and not relbase and rng.random() < 0.5)
+        emptybase = bool(a == 'sandbox' and main in ('path', 'text_base') and not relbase and not nobase and rng.random() < 0.4)
         return {'allow': a, 'mech': m, 'spell': s, 'main': main, 'slash': rng.random() < 0.5, 'version': version,
-                'relbase': relbase, 'nobase': nobase,
+                'relbase': relbase, 'nobase': nobase, 'emptybase': emptybase,
                 # the main source itself lies in the OTHER tree (outside the sandbox of the current directory)
-                'othertree': bool(relbase and main == 'path' and rng.random() < 0.5)}
+                'othertree': bool((relbase or emptybase) and main == 'path' and rng.random() < 0.5)}
 
     # ------------------------------------------------------------------
     def run_case(self, case):
@@ -225,6 +229,9 @@ class C12(Check):
         for scheme in ('http', 'https', 'ftp', 'x-custom'):
             peer.pages[f'{scheme}://sim.test/r/inc.xsd'] = inc_xsd('remote').encode()
             peer.pages[f'{scheme}://sim.test/r/imp.xsd'] = imp_xsd('remote').encode()
+        for f_, fn in (('inc.xsd', inc_xsd), ('imp.xsd', imp_xsd)):
+            peer.pages[f'urn:simr-{f_}'] = fn('remote').encode()
+            peer.pages[f'stub:r-{f_}'] = fn('remote').encode()
         if remote_main:
             for d, mk in (('base/sand', 'sand'), ('base/sand/sub', 'sand_sub'), ('base', 'parent'),
                           ('base/other', 'other'), ('base/sand_evil', 'evil')):
@@ -287,6 +294,11 @@ class C12(Check):
             kw['base_url'] = base_dir
         cls = xmlschema.XMLSchema11 if case['version'] == '1.1' else xmlschema.XMLSchema10
         saved_cwd = os.getcwd()
+        if case.get('emptybase'):
+            # base_url='' (what os.path.dirname('doc.xml') yields) with the working directory = the sandbox
+            os.chdir(world.sand)
+            kw['base_url'] = ''
+            counters['empty_base_url_cwd_in_sandbox'] = 1
         # a second, identical tree (the 'other working directory' of the two-step cases and the target of the
         # abs_other_tree_sandbox spelling)
         root_a = root + '-A'
@@ -306,9 +318,9 @@ class C12(Check):
             os.chdir(root)
             kw['base_url'] = 'base/sand' + ('/' if case['slash'] else '')
             counters['relative_base_with_chdir_prelude'] = 1
-            if case.get('othertree'):
-                source = world_a.write('base/sand/main.xsd', text)
-                counters['main_source_in_other_tree'] = 1
+        if case.get('othertree'):
+            source = world_a.write('base/sand/main.xsd', text)
+            counters['main_source_in_other_tree'] = 1
 
         schema = None
         outcome = {'exc': None, 'msg': None, 'warnings': []}
@@ -372,8 +384,7 @@ class C12(Check):
             is_doc = kind == 'local' and where == doc_real
             if not is_main and not is_doc:
                 beyond += 1
-            if (kind == 'local' and where.endswith(('/inc.xsd', '/imp.xsd'))) or \
-                    (kind == 'remote' and where.endswith(('/inc.xsd', '/imp.xsd'))):
+            if where.endswith(('inc.xsd', 'imp.xsd')):
                 target_fetched = True
             ok = True
             if allow == 'none':
@@ -446,7 +457,7 @@ class C12(Check):
             violations.append({'signature': dict(sigbase, clause='allow-mode-changed-by-parse', now=outcome['doc_allow_after_parse']),
                                'detail': {'case': case, 'outcome': outcome}})
         skeleton = [allow, main_kind, mech, sid, case['slash'] if allow == 'sandbox' else None, case.get('relbase', False),
-                    case.get('nobase', False)]
+                    case.get('nobase', False), case.get('emptybase', False)]
         return {'violations': violations, 'skeleton': skeleton, 'nontrivial': bool(beyond or refused or denied),
                 'counters': counters, 'digest': core.stable_hash([fetches_rel(fetches, root), outcome['exc']]),
                 'sample': {'case': case, 'fetches': fetches_rel(fetches, root)[:6], 'outcome': outcome['exc']}}
